@@ -341,8 +341,14 @@ func (fc *familyChannel) writeTask(_ context.Context) {
 // sendPendingMessage sends pending message before close this channel.
 func (fc *familyChannel) sendPendingMessage(sendLastMsg func(compressed []byte)) {
 	// try to write pending data
-	for compressed := range fc.ch {
-		sendLastMsg(compressed)
+	// NOTE: channel is never closed(ingestion/flush checker maybe still send, send on closed channel panics), just drain it.
+	for {
+		select {
+		case compressed := <-fc.ch:
+			sendLastMsg(compressed)
+		default:
+			return
+		}
 	}
 }
 
@@ -363,7 +369,6 @@ func (fc *familyChannel) checkFlush() {
 // Stop stops current write family shardChannel.
 func (fc *familyChannel) Stop(timeout int64) {
 	close(fc.stoppingSignal)
-	close(fc.ch)
 
 	ticker := time.NewTicker(time.Duration(time.Millisecond.Nanoseconds() * timeout))
 	select {
